@@ -95,7 +95,9 @@ def ref_lex_iter(e, chars, cat):
             if is_nl(c):
                 break
 
-    def event():
+    def event(keep_ignored=False):
+        """next (category, character); ignored / invalid characters are dropped - except while a control sequence name is being read,
+        where (TeX) any non-letter ends a control word and the very first character names a control symbol whatever its category"""
         while buf:
             ch = buf.pop(0)
             code = cat(ch)
@@ -106,7 +108,7 @@ def ref_lex_iter(e, chars, cat):
                 ch = chr_(n - 64) if n >= 64 else chr_(n + 64)
                 code = cat(ch)
                 e.tag('caret-decoded')
-            if code in (9, 15):
+            if code in (9, 15) and not keep_ignored:
                 e.tag('dropped-char')
                 continue
             return code, ch
@@ -148,7 +150,7 @@ def ref_lex_iter(e, chars, cat):
                 e.tag('par')
         elif code == 0:
             state = 'M'
-            ev2 = event()
+            ev2 = event(keep_ignored=True)
             if ev2 is None:
                 out.append((0, []))
                 yield out[-1]
@@ -157,13 +159,16 @@ def ref_lex_iter(e, chars, cat):
                 if c2 == 11:
                     word = [ch2]
                     while True:
-                        ev3 = event()
+                        ev3 = event(keep_ignored=True)
                         if ev3 is None:
                             break
                         if ev3[0] == 11:
                             word.append(ev3[1])
                         else:
-                            buf.insert(0, ev3[1])
+                            if ev3[0] not in (9, 15):
+                                buf.insert(0, ev3[1])      # an ignored character ends the word and is dropped
+                            else:
+                                e.tag('dropped-char')
                             break
                     out.append((0, word))
                     yield out[-1]
